@@ -14,6 +14,7 @@ Rewrite rules (each application is counted and reported):
   R13 `debug!(..);` (log crate) statements are dropped
   R14 panic!(..) -> return vstd::pervasive::unreached()                      (strengthens: "never reached" becomes an obligation)
   R15 .expect("literal") -> .unwrap()                                  (same value / same panic condition; message dropped)
+  closures: parameter types, a named return and requires/ensures are ADDED to a closure; its body text is kept verbatim
   R10 `&s[a..b]` on a slice -> vstd::slice::slice_subrange(s, a, b)   (same value; Verus has no range-index syntax)
   R9 `..` rest patterns / field shorthands are kept; `as usize`/`as i32` casts are kept (Verus checks them)
 Anything else unsupported => Undecided (exit 2), never an alarm."""
@@ -26,7 +27,7 @@ _SEMANTIC = re.compile(r"postcondition not satisfied|precondition not satisfied|
                        r"possible arithmetic underflow/overflow|assertion failed|possible division by zero|"
                        r"possible bit shift underflow/overflow|decreases not satisfied|"
                        r"recommendation not met|index out of bounds|loop invariant not satisfied|"
-                       r"invariant not satisfied (before|at end of) loop")
+                       r"invariant not satisfied (before|at end of) loop|unable to prove post-condition of closure")
 
 
 def load_units():
@@ -186,6 +187,11 @@ def _splice_fn(src_text, f, counts):
             raise Undecided("lost anchor in body of %s: %r" % (f["name"], a))
         body = body.replace(a, b)
         counts["custom"] = counts.get("custom", 0) + 1
+    # closure contracts: annotation only. {"after": text that precedes the closure, "params": typed parameter list,
+    # "ret": "name: Type", "requires"/"ensures": clauses}. The closure's BODY TEXT IS KEPT VERBATIM (an expression body is
+    # wrapped in braces, which Verus needs before it accepts clauses).
+    for c in f.get("closures", []):
+        body = _annotate_closure(body, c, f["name"], counts)
     # loop clauses, keyed by ordinal (1-based, source order) – insert from the last to the first
     lp = rsx.loops(rsx.mask(body))
     want = f.get("loops", {})
@@ -221,6 +227,46 @@ def _splice_fn(src_text, f, counts):
         clauses += "\n    decreases " + f["decreases"] + ","
     attrs = "".join("%s\n" % a for a in f.get("attrs", []))
     return attrs + sig + clauses + "\n" + body + "\n"
+
+
+def _annotate_closure(body, c, fname, counts):
+    m = rsx.mask(body)
+    a = body.find(c["after"])
+    if a < 0 or body.find(c["after"], a + 1) >= 0:
+        raise Undecided("lost anchor: closure anchor %r in %s" % (c["after"], fname))
+    i = a + len(c["after"])
+    while i < len(m) and m[i].isspace():
+        i += 1
+    if i >= len(m) or m[i] != "|":
+        raise Undecided("lost anchor: no closure after %r in %s" % (c["after"], fname))
+    j = m.index("|", i + 1)          # end of the parameter list (patterns with `|` are not used by this crate's closures)
+    k = j + 1
+    while k < len(m) and m[k].isspace():
+        k += 1
+    if m[k] == "{":
+        e = rsx.match_brace(m, k) + 1
+        inner = body[k:e]
+    else:
+        depth, e = 0, k
+        while e < len(m):
+            ch = m[e]
+            if ch in "([{":
+                depth += 1
+            elif ch in ")]}":
+                if depth == 0:
+                    break
+                depth -= 1
+            elif ch == "," and depth == 0:
+                break
+            e += 1
+        inner = "{ " + body[k:e].strip() + " }"
+    head = "|%s| -> (%s)" % (c["params"], c["ret"])
+    if c.get("requires"):
+        head += " requires " + c["requires"]
+    if c.get("ensures"):
+        head += " ensures " + c["ensures"]
+    counts["closure"] = counts.get("closure", 0) + 1
+    return body[:i] + head + " " + inner + body[e:]
 
 
 def _splice_struct(src_text, s, counts):
